@@ -33,7 +33,7 @@ from .poly import P
 from .program import FuncInfo
 
 CONCAT = {"numpy.concatenate", "numpy.hstack", "numpy.vstack", "numpy.append", "numpy.row_stack", "numpy.block"}
-TRANSPARENT = {"numpy.array", "numpy.asarray", "numpy.asanyarray", "numpy.ascontiguousarray", "numpy.copy", "numpy.real", "numpy.imag", "numpy.conj",
+TRANSPARENT = {"numpy.array", "numpy.asarray", "numpy.asanyarray", "numpy.ascontiguousarray", "numpy.asfortranarray", "numpy.require", "numpy.copy", "numpy.real", "numpy.imag", "numpy.conj",
                "numpy.conjugate", "numpy.abs", "numpy.absolute", "numpy.squeeze", "numpy.atleast_1d", "numpy.atleast_2d", "numpy.ravel", "numpy.transpose",
                "list", "tuple", "numpy.float64", "numpy.complex128", "copy.copy", "copy.deepcopy", "numpy.nan_to_num"}
 TRANSPARENT_METH = {"T", "real", "imag", "values", "flat"}
@@ -1159,6 +1159,27 @@ class Interp:
             return E(e)
         if isinstance(e, (ast.Tuple, ast.List)):
             items = [self.ev(x, env) for x in e.elts]
+            if any(isinstance(x, ast.Starred) for x in e.elts):
+                # [a, *rest]: the starred sequence is spliced in
+                parts, flat = [], []
+                for x, v in zip(e.elts, items):
+                    if isinstance(x, ast.Starred) and isinstance(v, Sq):
+                        parts.append(v.t)
+                        flat = None
+                    elif isinstance(x, ast.Starred) and isinstance(v, Tup):
+                        parts += [self.leaf(y) for y in v.items]
+                        if flat is not None:
+                            flat += v.items
+                    elif isinstance(x, ast.Starred):
+                        parts.append(("opq", f"starred `{astq.src(x.value, 30)}`"))
+                        flat = None
+                    else:
+                        parts.append(self.leaf(v))
+                        if flat is not None:
+                            flat.append(v)
+                if isinstance(e, ast.Tuple) and flat is not None:
+                    return Tup(flat)
+                return Sq(("cat", tuple(parts)))
             if isinstance(e, ast.Tuple):
                 return Tup(items)
             return Sq(("cat", tuple(self.leaf(x) for x in items)))
